@@ -298,13 +298,13 @@ func c02Classify(kcs []kindChange, ds []lib.TreeDiff, errText string) string {
 
 func init() {
 	lib.Register(&lib.Property{
-		ID:    "C02",
-		Level: "exploration",
-		Rule: "pairs weighted to path-level relations (rename, swap, chain, duplicate with/without original, patched+rename-source, grow/shrink/empty, deleted dirs, symlinks, kind swaps); plain and optimized patch; each applied in place through the overlay bowl R times from byte-identical starting states (Go randomises map iteration per range, repetition is the only lever on commit order; the mv/cp/overlay/ghost sequence of every commit is parsed from BOWL_OVERLAY_VERBOSE output). Oracle: inode/mtime/size/checksum snapshot of the directory before Resume == snapshot right before Commit; tree after Commit == new build == fresh application. distinct = distinct (relation-set signature, patch kind) with >=1 non-'unchanged' relation",
+		ID:          "C02",
+		Level:       "exploration",
+		Rule:        "pairs weighted to path-level relations (rename, swap, chain, duplicate with/without original, patched+rename-source, grow/shrink/empty, deleted dirs, symlinks, kind swaps); plain and optimized patch; each applied in place through the overlay bowl R times from byte-identical starting states (Go randomises map iteration per range, repetition is the only lever on commit order; the mv/cp/overlay/ghost sequence of every commit is parsed from BOWL_OVERLAY_VERBOSE output). Oracle: inode/mtime/size/checksum snapshot of the directory before Resume == snapshot right before Commit; tree after Commit == new build == fresh application. distinct = distinct (relation-set signature, patch kind) with >=1 non-'unchanged' relation",
 		Assumptions: []string{"tmpfs/ext4 nanosecond mtimes and stable inodes", "stage folder is outside the output directory", "map-order exploration is by repetition only"},
-		Cases:    c02Cases,
-		Run:      c02Run,
-		Batch:    10,
-		ChildEnv: []string{"BOWL_OVERLAY_VERBOSE=1"},
+		Cases:       c02Cases,
+		Run:         c02Run,
+		Batch:       10,
+		ChildEnv:    []string{"BOWL_OVERLAY_VERBOSE=1"},
 	})
 }
